@@ -161,6 +161,10 @@ def run_sanitisers(c, prog):
 
 
 def run(c, prog):
+    from . import C16 as _C16, C01 as _C01
+    from sa import db as _dbm
+    _C16.rule_sername(core.Alias(c, "C07"), prog, _dbm.Database())     # load/save fixed point: the reader files both under one canonical name, the next save orders them differently
+    _C01.rule_uid(core.Alias(c, "C07"), prog)     # default-filled nil UniqueIds come back as UniqueId::now(): clock and RNG in the output of the next save
     from . import C12 as _C12
     _C12.rule_book(core.Alias(c, "C07"), prog, reader_rule=False)     # UniqueId::now() (clock + RNG) is reached only on a genuine collision: every removal releases its id
     g = flow.CallGraph(prog)
